@@ -71,15 +71,16 @@ def plan(tier):
         for n in range(1, b['nodes'] + 1):
             sh = 1 if n <= 3 else NSHARD
             units += [(tier, sname, n, k, sh) for k in range(sh)]
+    units += [(tier, 'matrix', 0, k, 16) for k in range(16)]
     return units
 
 
-def wrappers(t):
+def wrappers(t, force_alias=False):
     """Property texts that place predicate t where its references are in scope."""
     from hplmc.checks.c10 import mentions
 
     text = absyn.expr_text(t)
-    if mentions(t, 'A'):
+    if mentions(t, 'A') or force_alias:
         return [
             ('after s as A: no t { %s }' % text, {'this': 't', 'A': 's'}),
             ('globally: s as A causes t { %s }' % text, {'this': 't', 'A': 's'}),
@@ -94,14 +95,18 @@ def wrappers(t):
     ]
 
 
-def check_term(t, sname, r=None):
+def check_term(t, sname, r=None, force_alias=False):
     problems = []
+    if sname == 'matrix':
+        from hplmc import sigmatrix
+
+        schemas.FAMILY.setdefault('matrix', sigmatrix.MATRIX_SCHEMA)
     sc = schemas.FAMILY[sname]
     tok = schemas.to_token(sc, 'M')
     atok = schemas.to_token(schemas.renamed(sc), 'MA')
     other = schemas.to_token(schemas.FAMILY['flat'], 'O')
     msg_types = {'t': tok, 's': atok, 'u': other, 'w': other}
-    for text, roots in wrappers(t):
+    for text, roots in wrappers(t, force_alias):
         if roots is None:
             continue
         if r is not None:
@@ -173,6 +178,24 @@ def _typed_accessors(tn, bound=frozenset()):
 def run(unit):
     tier, sname, n, k, shards = unit
     r = Result()
+    if sname == 'matrix':
+        from hplmc import sigmatrix
+
+        schemas.FAMILY.setdefault('matrix', sigmatrix.MATRIX_SCHEMA)
+        for i, (desc, t) in enumerate(sigmatrix.valid_cases()):
+            if i % shards != k:
+                continue
+            r.count('evaluations')
+            r.count('states')
+            seen = set()
+            for kind, detail in check_term(t, 'matrix', r, force_alias=True):
+                if kind in seen:
+                    continue
+                seen.add(kind)
+                r.violation(f'{kind} [{desc}]', {'schema': 'matrix', 'term': t, 'text': absyn.expr_text(t)}, detail, size=absyn.size(t))
+            r.count('validated')
+        r.sample({'matrix_case': absyn.expr_text(t)})
+        return r
     g = grammar_for(sname)
     for i, t in enumerate(g.stream('B', n)):
         if i % shards != k:
@@ -201,7 +224,7 @@ def replay(w):
 def describe(tier):
     b = bounds(tier)
     return {
-        'rule': f"schemas {list(b['schemas'])} (flat primitives; variable/fixed arrays of each primitive; nested messages three levels; array of messages with constants; fixed arrays of length 0/1/3 and arrays of arrays; four-level nesting) x every Bool term with <= {b['nodes']} nodes generated type-directedly from the schema's valid paths (rooted at the message and at alias A), literals, + * ** = != < and implies not unary-minus abs len sum max bool int, sets, ranges, indexing, inclusion, both quantifiers (variables typed by their domain); each wrapped into 3-4 property positions; parse, per-reference declared-type containment, and HplProperty.type_check_references against the real type tokens. A state = one (schema, predicate); transitions = parser / schema-check calls.",
+        'rule': f"schemas {list(b['schemas'])} (flat primitives; variable/fixed arrays of each primitive; nested messages three levels; array of messages with constants; fixed arrays of length 0/1/3 and arrays of arrays; four-level nesting) x every Bool term with <= {b['nodes']} nodes generated type-directedly from the schema's valid paths (rooted at the message and at alias A), literals, + * ** = != < and implies not unary-minus abs len sum max bool int, sets, ranges, indexing, inclusion, both quantifiers (variables typed by their domain); each wrapped into 3-5 property positions; plus the signature matrix (every operator and every built-in function with every valid argument shape, used at its declared result type); parse, per-reference declared-type containment, and HplProperty.type_check_references against the real type tokens. A state = one (schema, predicate); transitions = parser / schema-check calls.",
         'bounds': {'nodes': b['nodes'], 'schemas': len(b['schemas'])},
         'exhaustive': True,
         'assumptions': ['type-directed generation by sort is the reference notion of well-typed'],
